@@ -160,10 +160,11 @@ Section Ws.
   Lemma node_step n : NodeN n -> ListN n -> NodeN (S n).
   Proof.
     intros NN LN i i' SZ W ps p p'.
-    destruct i as [ws cs|ws b tr|ws name post args|ws k b tr|ws text post];
-      destruct i' as [ws' cs'|ws' b' tr'|ws' name' post' args'|ws' k' b' tr'|ws' text' post']; try contradiction;
-      cycle 4.
+    destruct i as [ws cs|ws b tr|ws name post args|ws k b tr|ws text post|ws mid];
+      destruct i' as [ws' cs'|ws' b' tr'|ws' name' post' args'|ws' k' b' tr'|ws' text' post'|ws' mid'];
+      try contradiction; cycle 4.
     - cbn [wsv] in W. destruct W as (W1 & <- & W2). repeat split.
+    - cbn [node_of]. destruct (par_spec_ok cx); repeat split.
     - repeat split.
     - cbn [wsv] in W. destruct W as (W1 & W2 & W3). fold (wsv_items b b') in W3.
       cbn [isize] in SZ. fold (lsize b) in SZ.
@@ -198,15 +199,16 @@ Section Ws.
     rewrite lsize_cons in SZ. pose proof (isize_pos i). rewrite !absorb_cons.
     apply LN; [lia|exact Wr|].
     destruct (NN i i' ltac:(lia) Wi ps (p + length (item_ws i)) (p' + length (item_ws i'))) as (N1 & N2 & N3).
-    destruct i as [ws cs|ws b tr|ws name post args|ws k b tr|ws text post];
-      destruct i' as [ws' cs'|ws' b' tr'|ws' name' post' args'|ws' k' b' tr'|ws' text' post']; try contradiction;
-      cbn [absorb_item item_ws] in *.
+    destruct i as [ws cs|ws b tr|ws name post args|ws k b tr|ws text post|ws mid];
+      destruct i' as [ws' cs'|ws' b' tr'|ws' name' post' args'|ws' k' b' tr'|ws' text' post'|ws' mid'];
+      try contradiction; cbn [absorb_item item_ws] in *.
     - cbn [wsv] in Wi. destruct Wi as [W1 <-]. apply cs_push_pending; [exact C|].
       apply feq_app. apply wse_feq. exact W1.
     - apply cs_push_node; [|exact N1|congruence]. apply cs_pre_flush; [exact C|]. cbn [wsv] in Wi. tauto.
     - apply cs_push_node; [|exact N1|congruence]. apply cs_pre_flush; [exact C|]. cbn [wsv] in Wi. tauto.
     - apply cs_push_node; [|exact N1|congruence]. apply cs_pre_flush; [exact C|]. cbn [wsv] in Wi. tauto.
     - apply cs_push_node; [|exact N1|congruence]. apply cs_pre_flush; [exact C|]. cbn [wsv] in Wi. tauto.
+    - apply cs_push_node; [|exact N1|congruence]. apply cs_pre_flush; [exact C|]. cbn [wsv] in Wi. exact Wi.
   Qed.
 
   Lemma ws_all n : NodeN n /\ ListN n.
